@@ -44,7 +44,7 @@ func GetApparmorLogs(file io.Reader, profile string) []string {
 	readLines(file, func(line string) {
 		if isAppArmorLog.MatchString(line) {
 			logs = append(logs,
-				regCleanLogs.Replace(util.DecodeHexInString(line)),
+				regCleanLogs.Replace(util.DecodeHexInString(regCleanPid.Replace(line))),
 			)
 		}
 	})
